@@ -54,7 +54,7 @@ class Net:
 
     cfg keys: lat=(lo_ns, hi_ns); faultable(frames, addr)->bool; drop_pct, dup_pct;
     max_drops_per_message + fault_key(frames, addr) (fair loss: total drops of the frames and acks of one logical message); plan = {"drop": set(n), "dup": set(n)} explicit faults on the
-    n-th faultable frame; partition(kernel, addr, frames)->bool: faultable traffic dropped entirely while true.
+    n-th faultable frame, "hold": {n: extra_ns} a long delay of that frame and of what follows it on the same link; partition(kernel, addr, frames)->bool: faultable traffic dropped entirely while true.
     """
 
     def __init__(self, kernel, cfg):
@@ -113,6 +113,13 @@ class Net:
                 drop = True
             elif n in plan.get("dup", ()):
                 dup = True
+            elif str(n) in plan.get("hold", {}) or n in plan.get("hold", {}):
+                # a connection outage: this frame, and whatever is queued behind it on the same pipe, arrives that much later
+                hold = plan["hold"]
+                lat += hold.get(n, hold.get(str(n)))
+                self.stats["held"] += 1
+                kk.fire("hold")
+                self._wire("hold", addr, frames, n)
             else:
                 dp, up = cfg.get("drop_pct", 0), cfg.get("dup_pct", 0)
                 if dp or up:
